@@ -1061,10 +1061,12 @@ impl FromStr for Epoch {
     }
 }
 
+#[cfg(any(test, kani))]
 fn div_rem_f64(me: f64, rhs: f64) -> (i32, f64) {
     ((div_euclid_f64(me, rhs) as i32), rem_euclid_f64(me, rhs))
 }
 
+#[cfg(any(test, kani))]
 fn div_euclid_f64(lhs: f64, rhs: f64) -> f64 {
     let q = (lhs / rhs).trunc();
     if lhs % rhs < 0.0 {
@@ -1078,6 +1080,7 @@ fn div_euclid_f64(lhs: f64, rhs: f64) -> f64 {
     }
 }
 
+#[cfg(any(test, kani))]
 fn rem_euclid_f64(lhs: f64, rhs: f64) -> f64 {
     let r = lhs % rhs;
     if r < 0.0 {
